@@ -4,8 +4,10 @@
 #pragma once
 
 #include <chrono>
+#include <map>
 #include <memory>
 #include <string>
+#include <tuple>
 #include <unordered_map>
 #include <vector>
 
@@ -138,6 +140,12 @@ private:
   std::weak_ptr<sdk::metrics::MeterContext> meter_context_;
   // Every storage to collect for this meter: one per instrument and matching view.
   std::vector<std::shared_ptr<MetricStorage>> storage_registry_;
+  // The storages of each registered instrument (name, description, unit, type, value type).
+  // Every handle obtained for the same instrument records into the same storages.
+  using InstrumentKey = std::
+      tuple<std::string, std::string, std::string, InstrumentType, InstrumentValueType>;
+  std::map<InstrumentKey, std::vector<std::shared_ptr<SyncWritableMetricStorage>>> sync_storages_;
+  std::map<InstrumentKey, std::vector<std::shared_ptr<AsyncWritableMetricStorage>>> async_storages_;
   std::shared_ptr<ObservableRegistry> observable_registry_;
   MeterConfig meter_config_;
   std::unique_ptr<SyncWritableMetricStorage> RegisterSyncMetricStorage(
